@@ -272,7 +272,9 @@ class Inliner:
             self._merge_closures(ctx, c1, c2)
             return pre + [s]
         if isinstance(s, ast.For) and self._unrollable(s):
-            # `for side in (step.to, step.frm): body` -> one copy of the body per element (exact: no break/continue)
+            # `for side in (step.to, step.frm): body` -> one copy of the body per element (exact: no break; `continue`
+            # in guard position is lowered to if / else first)
+            s.body = self._lower_continue(s.body)
             out = []
             rebound = isinstance(s.target, ast.Name) and any(
                 isinstance(n, ast.Name) and n.id == s.target.id and isinstance(n.ctx, (ast.Store, ast.Del))
@@ -346,21 +348,51 @@ class Inliner:
         return pre + [s]
 
     @staticmethod
+    def _lower_continue(stmts):
+        """`if c: ...; continue` followed by `rest`  ->  `if c: ... else: rest` (recursively); None if a `continue`
+        sits anywhere else."""
+        def has_jump(nodes):
+            todo = list(nodes)
+            while todo:
+                n = todo.pop()
+                if isinstance(n, (ast.Break, ast.Continue)):
+                    return True
+                if isinstance(n, (ast.For, ast.While, ast.FunctionDef, ast.AsyncFunctionDef, ast.Lambda)):
+                    continue        # break / continue in there belong to the inner loop
+                todo.extend(ast.iter_child_nodes(n))
+            return False
+        out = []
+        for i, st in enumerate(stmts):
+            if isinstance(st, ast.Continue):
+                return out or [ast.copy_location(ast.Pass(), st)]
+            if isinstance(st, ast.If) and has_jump([st]):
+                rest = Inliner._lower_continue(stmts[i + 1:])
+                if rest is None:
+                    return None
+                body_jumps = bool(st.body) and isinstance(st.body[-1], ast.Continue)
+                else_jumps = bool(st.orelse) and isinstance(st.orelse[-1], ast.Continue)
+                if body_jumps and not has_jump(st.body[:-1]) and not has_jump(st.orelse):
+                    new = ast.copy_location(ast.If(st.test, st.body[:-1] or [ast.copy_location(ast.Pass(), st)],
+                                                   list(st.orelse) + rest), st)
+                    return out + [new]
+                if else_jumps and not has_jump(st.orelse[:-1]) and not has_jump(st.body):
+                    new = ast.copy_location(ast.If(st.test, list(st.body) + rest,
+                                                   st.orelse[:-1] or [ast.copy_location(ast.Pass(), st)]), st)
+                    return out + [new]
+                return None
+            if has_jump([st]):
+                return None
+            out.append(st)
+        return out
+
+    @staticmethod
     def _unrollable(s):
         it = s.iter
         if not (isinstance(it, (ast.Tuple, ast.List)) and 1 <= len(it.elts) <= 4):
             return False
         if not all(isinstance(e, (ast.Name, ast.Attribute)) for e in it.elts):
             return False            # only sequences of objects / records; loops over literal constants stay loops
-        todo = list(s.body)
-        while todo:
-            n = todo.pop()
-            if isinstance(n, (ast.Break, ast.Continue)):
-                return False
-            if isinstance(n, (ast.For, ast.While, ast.FunctionDef, ast.AsyncFunctionDef, ast.Lambda)):
-                continue            # break / continue in there belong to the inner loop
-            todo.extend(ast.iter_child_nodes(n))
-        return True
+        return Inliner._lower_continue(list(s.body)) is not None
 
     @staticmethod
     def _merge_closures(ctx, c1, c2):
